@@ -39,3 +39,4 @@ import SluVerif.Proofs.InitCursor
 #print axioms Slu.initStep_cursor
 #print axioms Slu.initLoop_cursor
 #print axioms Slu.parallelInit_loop_covers
+#print axioms Slu.initLoop_frame
